@@ -170,6 +170,26 @@ def routes_agree(ctx, con, f, rng):
         b = observe(parse_cdc(text), f)
     except Exception as e:  # noqa
         b = None
+    # the builder route: CircuitBuilder re-creates the circuit from the strings of its parts
+    try:
+        from pyimpspec import CircuitBuilder
+        from pyimpspec.circuit.base import Connection
+        from pyimpspec.circuit.parallel import Parallel
+
+        def fill(b, con_):
+            for item in con_._elements:
+                if isinstance(item, Connection):
+                    with (b.parallel() if isinstance(item, Parallel) else b.series()) as sub:
+                        fill(sub, item)
+                else:
+                    b.add(item)
+        with CircuitBuilder() as builder:
+            fill(builder, top)
+        bc = observe(builder.to_circuit(), f)
+        if a[0] == "ok" and (bc[0] != "ok" or any(abs(u - v) > 1e-9 * max(abs(u), 1e-300) for u, v in zip(a[1], bc[1]))):
+            problems.append("CircuitBuilder circuit differs from object-built circuit")
+    except Exception as e:  # noqa
+        pass
     ones = []
     for x in f:
         ones.append(observe(c_obj, np.array([x])))
@@ -250,7 +270,7 @@ def run(rep, tier, seed, tr_errors):
         cases.append((idx, tl, lvs, n, obs))
         idx += 1
         rep.distinct.add(tl + str(lvs[0][:1]))
-        if rng.random() < 0.2:
+        if True:
             pr = routes_agree(ctx, con, f, rng)
             if pr:
                 direct.append((tl, pr))
